@@ -1,5 +1,6 @@
 import Driver.Server
 import Driver.Misc
+import Driver.Life
 /-
   Line-protocol driver: one case per input line, one output line `<model> ## <spec>` per case.
 -/
@@ -14,6 +15,7 @@ def runCase (line : String) : String :=
   | some "trk" => let (m, s) := runTrk tok; s!"{m} ## {s}"
   | some "flt" => let (m, s) := runFlt tok; s!"{m} ## {s}"
   | some "fltm" => let (m, s) := runFltm tok; s!"{m} ## {s}"
+  | some "life" => let (m, s) := runLife tok; s!"{m} ## {s}"
   | some "rdr" => let (m, s) := runRdr tok; s!"{m} ## {s}"
   | some "srv" => let (m, s) := runSrv tok; s!"{m} ## {s}"
   | some other => s!"unknown-suite {other} ## unknown-suite {other}"
